@@ -106,6 +106,22 @@ type XClient struct {
 	// OddFrames counts, per frame id, frames that are neither a reply nor a heartbeat request
 	// (a corrupted reply forwarded by MOSN may read as a request or an event to the client)
 	OddFrames map[uint64]int
+	// heartbeat requests this client sent itself (id -> when) and the acknowledgements it got for them
+	HBSent  map[uint64]time.Duration
+	HBAcked map[uint64]int
+}
+
+// SendHB sends a heartbeat request of the client's own (MOSN answers those itself).
+func (x *XClient) SendHB(id uint64) {
+	if x.Conn == nil || x.Conn.PeerDone() {
+		return
+	}
+	if x.HBSent == nil {
+		x.HBSent, x.HBAcked = map[uint64]time.Duration{}, map[uint64]int{}
+	}
+	x.HBSent[id] = x.S.Now()
+	x.Conn.Send(x.Codec.Build(&XFrame{IsReq: true, Heartbeat: true, ID: id}))
+	x.S.Logf("client %s sends heartbeat id=%d", x.Name, id)
 }
 
 func NewXClient(s *sim.Sim, h *History, codec XCodec, name string) *XClient {
@@ -145,6 +161,14 @@ func (x *XClient) OnData(c *sim.Conn, b []byte) {
 		if err != nil {
 			x.ParseErr = err
 			return
+		}
+		if f.Heartbeat && !f.IsReq {
+			if _, mine := x.HBSent[f.ID]; mine {
+				x.HBAcked[f.ID]++
+				x.Heartbeats++
+				x.S.Logf("client %s got heartbeat ack id=%d", x.Name, f.ID)
+				continue
+			}
 		}
 		if (f.Heartbeat && !f.IsReq) || (f.IsReq && !f.Heartbeat) {
 			if x.OddFrames == nil {
@@ -257,6 +281,9 @@ func (u *XUpstream) OnData(c *sim.Conn, b []byte) {
 			return
 		}
 		if f.Heartbeat {
+			if f.IsReq && u.IgnoreHB {
+				u.S.Fault("up_ignores_heartbeat")
+			}
 			if f.IsReq && !u.IgnoreHB && !u.Wedged {
 				ack := &XFrame{IsReq: false, Heartbeat: true, ID: f.ID, Status: u.Codec.SuccessStatus()}
 				c.Send(u.Codec.Build(ack))
